@@ -248,7 +248,7 @@ func spaces(tier string) []*gridx.Space {
 	// --- bank erosion
 	beBase := map[string]float64{"riparianVegPercent": 40, "maxRiparianVegEffectiveness": 95, "soilErodibility": 80, "bankErosionCoeff": 0.0001, "linkSlope": 0.002,
 		"bankFullFlow": 50, "bankMgtFactor": 1, "sedBulkDensity": 1.5, "bankHeight": 2, "linkLength": 5000, "dailyFlowPowerFactor": 1.4, "longTermAvDailyFlow": 2e6, "soilPercentFine": 35, "durationInSeconds": 86400}
-	ps, pn = G("BankErosion", beBase, []gridx.Axis{A("soilPercentFine", 0, 35, 100), A("riparianVegPercent", 0, 40, 100), A("durationInSeconds", 3600, 86400), A("longTermAvDailyFlow", 0, 2e6)})
+	ps, pn = G("BankErosion", beBase, []gridx.Axis{A("soilPercentFine", 0, 35, 100), A("riparianVegPercent", 0, 40, 100), A("durationInSeconds", 3600, 86400), A("longTermAvDailyFlow", 0, 2e6), A("dailyFlowPowerFactor", 0, 1.4)}) // power 0: flow^0 = 1 for any positive flow, and nothing without flow
 	out = append(out, mk("BankErosion", ps, pn, L([]float64{0, 0.5, 30, 400}, []float64{0, 1e5}), T, func(p, in, o map[string]float64) (string, string) {
 		fine, coarse := o["bankErosionFine"], o["bankErosionCoarse"]
 		if fine < 0 || coarse < 0 {
